@@ -6,8 +6,10 @@
 package main
 
 import (
+	"encoding/hex"
 	"encoding/json"
 	"fmt"
+	"io"
 	"os"
 	"os/exec"
 	"path/filepath"
@@ -17,6 +19,7 @@ import (
 	"time"
 
 	"github.com/anz-bank/sysl/pkg/parse"
+	"github.com/anz-bank/sysl/pkg/sysl"
 	"github.com/anz-bank/sysl/pkg/syslutil"
 	"github.com/sirupsen/logrus"
 	"github.com/spf13/afero"
@@ -25,15 +28,56 @@ import (
 )
 
 type req struct {
-	Files map[string]string `json:"files"`
-	Root  string            `json:"root"`
+	Files   map[string]string `json:"files"`
+	Root    string            `json:"root"`
+	Logs    bool              `json:"logs,omitempty"`    // report what logrus received and the files Parse processed
+	Payload bool              `json:"payload,omitempty"` // report the bytes of the first return payload / call endpoint of App.E
 }
 type rep struct {
-	Outcome string `json:"outcome"` // model | error | panic
-	Code    int    `json:"code"`
-	Msg     string `json:"msg"`
-	Trace   string `json:"trace,omitempty"`
-	Apps    int    `json:"apps"`
+	Outcome   string   `json:"outcome"` // model | error | panic
+	Code      int      `json:"code"`
+	Msg       string   `json:"msg"`
+	Trace     string   `json:"trace,omitempty"`
+	Apps      int      `json:"apps"`
+	Logs      []string `json:"logs,omitempty"`      // "level|message" of every logrus entry at warning level or above
+	Processed []string `json:"processed,omitempty"` // OperationSummary: the files handed to parseSpecs, in order
+	Payload   string   `json:"payload,omitempty"`   // hex of the payload of the first statement of App.E ("none": no such statement)
+	Lit       string   `json:"lit,omitempty"`       // the integer literal assigned first in view App.v: "i:<decimal>", "unset" (no value), "other"
+}
+
+// logHook collects what the code under test logs; a Fatal entry is also written to stderr, because logrus ends the
+// process right after the hooks and the parent then only has the worker's stderr.
+type logHook struct{ lines []string }
+
+func (h *logHook) Levels() []logrus.Level {
+	return []logrus.Level{logrus.PanicLevel, logrus.FatalLevel, logrus.ErrorLevel, logrus.WarnLevel}
+}
+func (h *logHook) Fire(e *logrus.Entry) error {
+	if e.Level == logrus.FatalLevel {
+		fmt.Fprintf(os.Stderr, "VERIF-FATAL %s\n", strings.ReplaceAll(e.Message, "\n", " "))
+	}
+	h.lines = append(h.lines, e.Level.String()+"|"+e.Message)
+	return nil
+}
+
+var hook = &logHook{}
+
+// withStdout runs f with os.Stdout redirected to a pipe and returns what f printed (Parse prints the operation summary there)
+func withStdout(f func()) string {
+	old := os.Stdout
+	r, w, err := os.Pipe()
+	if err != nil {
+		f()
+		return ""
+	}
+	os.Stdout = w
+	done := make(chan string)
+	go func() { b, _ := io.ReadAll(r); done <- string(b) }()
+	func() {
+		defer func() { os.Stdout = old; w.Close() }()
+		f()
+	}()
+	return <-done
 }
 
 func compileInWorker(line []byte) interface{} {
@@ -52,7 +96,27 @@ func compileInWorker(line []byte) interface{} {
 		for n, c := range r.Files {
 			afero.WriteFile(fs, n, []byte(c), 0o644)
 		}
-		m, err := parse.NewParser().ParseFromFs(r.Root, fs)
+		p := parse.NewParser()
+		var m *sysl.Module
+		var err error
+		if r.Logs {
+			hook.lines = nil
+			p.OperationSummary = true
+			so := withStdout(func() { m, err = p.ParseFromFs(r.Root, fs) })
+			var sum struct {
+				FilesProcessed []string `json:"filesProcessed"`
+			}
+			if i := strings.Index(so, "{"); i >= 0 {
+				json.Unmarshal([]byte(so[i:]), &sum)
+			}
+			defer func() {
+				if out.Outcome == "model" || out.Outcome == "error" {
+					out.Logs, out.Processed = hook.lines, sum.FilesProcessed
+				}
+			}()
+		} else {
+			m, err = p.ParseFromFs(r.Root, fs)
+		}
 		if err != nil {
 			code := 1 // what main2 does: default 1, Exit carries its own code
 			if e, ok := err.(syslutil.Exit); ok {
@@ -73,22 +137,48 @@ func compileInWorker(line []byte) interface{} {
 			return
 		}
 		out = rep{Outcome: "model", Apps: len(m.Apps)}
+		if r.Payload {
+			out.Payload = "none"
+			if a := m.Apps["App"]; a != nil && a.Views["v"] != nil {
+				out.Lit = "other"
+				if tr := a.Views["v"].GetExpr().GetTransform(); tr != nil && len(tr.Stmt) > 0 && tr.Stmt[0].GetAssign() != nil {
+					if l := tr.Stmt[0].GetAssign().GetExpr().GetLiteral(); l != nil {
+						switch v := l.Value.(type) {
+						case *sysl.Value_I:
+							out.Lit = fmt.Sprintf("i:%d", v.I)
+						case nil:
+							out.Lit = "unset"
+						}
+					}
+				}
+			}
+			if a := m.Apps["App"]; a != nil && a.Endpoints["E"] != nil && len(a.Endpoints["E"].Stmt) > 0 {
+				st := a.Endpoints["E"].Stmt[0]
+				if st.GetRet() != nil {
+					out.Payload = hex.EncodeToString([]byte(st.GetRet().Payload))
+				} else if st.GetCall() != nil {
+					out.Payload = hex.EncodeToString([]byte(st.GetCall().Endpoint))
+				}
+			}
+		}
 	}()
 	return out
 }
 
 type caseT struct {
-	Stream string            `json:"stream"`
-	Files  map[string]string `json:"files"`
-	Root   string            `json:"root"`
-	Note   string            `json:"note,omitempty"`
+	Stream  string            `json:"stream"`
+	Files   map[string]string `json:"files"`
+	Root    string            `json:"root"`
+	Note    string            `json:"note,omitempty"`
+	Logs    bool              `json:"logs,omitempty"`
+	Payload bool              `json:"payload,omitempty"`
 }
 
 var w *common.Worker
 
 func run(c *common.Ctx, cs caseT) rep {
 	var r rep
-	died, timedOut, stderr := w.Call(req{cs.Files, cs.Root}, &r, 20*time.Second)
+	died, timedOut, stderr := w.Call(req{cs.Files, cs.Root, cs.Logs, cs.Payload}, &r, 20*time.Second)
 	if timedOut {
 		r = rep{Outcome: "hang"}
 	} else if died {
@@ -112,6 +202,10 @@ func judge(c *common.Ctx, cs caseT, r rep) {
 		}
 		c.Hist(fmt.Sprintf("error-code:%d", r.Code))
 	case "panic", "died":
+		if fs, msg := fatalSite(r.Trace); r.Outcome == "died" && fs != "" {
+			c.Fail("killed:logrus.Fatal:"+fs, fmt.Sprintf("compiling %s ends the process in logrus.Fatal (%s)", cs.Note, msg), cs)
+			return
+		}
 		site := common.PanicSite(r.Trace)
 		what := r.Msg
 		if what == "" {
@@ -436,7 +530,9 @@ func odd(r *common.Rng) string {
 
 func main() {
 	if common.IsWorker() {
-		logrus.SetLevel(logrus.PanicLevel)
+		logrus.SetLevel(logrus.WarnLevel) // entries go to the hook only
+		logrus.SetOutput(io.Discard)
+		logrus.AddHook(hook)
 		common.ServeWorker(compileInWorker)
 		return
 	}
@@ -448,7 +544,7 @@ func main() {
 	if repo == "" {
 		repo = "/repo"
 	}
-	c.Res.Rule = "each case = a root file (plus imported files) compiled by the real parser in a worker subprocess; streams: crash-family corpus, field-type forms (13 natives x 5 spec forms x 3 wrappers x digit lengths 1..20), token/line/byte-level mutants of the repository's .sysl corpus, generated grammatical-but-odd specs, import closures over those; distinct = distinct file contents; non-trivial = the input is not an unmodified corpus file"
+	c.Res.Rule = "each case = a root file (plus imported files) compiled by the real parser in a worker subprocess; streams: crash-family corpus, field-type forms (13 natives x 5 spec forms x 3 wrappers x digit lengths 1..20), token/line/byte-level mutants of the repository's .sysl corpus, generated grammatical-but-odd specs, import closures over those, closures of 1-5 files reached under several spellings of the same path with re-opened / case-variant applications and duplicate endpoints (the linter model replays their recordings), free text after `return` / `<-` over {% 2 0 4 a G blank +} up to length 4 (the MustUnescape model predicts panic or the stored bytes); distinct = distinct file contents; non-trivial = the input is not an unmodified corpus file"
 	if c.Replay != "" {
 		var cs caseT
 		if err := common.LoadReplay(c.Replay, &cs); err != nil {
@@ -636,20 +732,20 @@ Local Open Scope Z_scope.`
 			// class of the file alone: the harness measures it (with its import lines removed)
 			classes = append(classes, kn.cls)
 		}
-		// measure unknown classes alone
+		// the class of every file is measured as it stands in the closure - with its own import lines, which can change how the
+		// rest is read (a first line that starts with a blank is an application at the top of a file, an indentation error
+		// after an import line) - against stub files for whatever it imports
 		for k := 0; k < n; k++ {
-			if classes[k] == "?" && !missing[k] {
-				body := fl[names[k]]
-				// strip import lines
-				var keep []string
-				for _, l := range strings.Split(body, "\n") {
-					if !strings.HasPrefix(l, "import ") {
-						keep = append(keep, l)
-					}
-				}
-				r := run(c, caseT{Files: map[string]string{"root.sysl": strings.Join(keep, "\n")}, Root: "root.sysl"})
-				classes[k] = r.Outcome + fmt.Sprint(r.Code)
+			if missing[k] {
+				continue
 			}
+			alone := map[string]string{}
+			for t := 0; t < n; t++ {
+				alone[names[t]] = fmt.Sprintf("Stub%d:\n    ...\n", t)
+			}
+			alone[names[k]] = fl[names[k]]
+			r := run(c, caseT{Files: alone, Root: names[k]})
+			classes[k] = r.Outcome + fmt.Sprint(r.Code)
 		}
 		var walk func(k int)
 		walk = func(k int) {
@@ -749,6 +845,16 @@ Local Open Scope Z_scope.`
 		}
 	}
 
+	// G: closures reached under several spellings; the linter's recordings against Total/Linter.v
+	nlint := 160
+	if big {
+		nlint = 2500
+	}
+	lintStream(c, do, nlint)
+
+	// H: free text in `return` / call statements against the MustUnescape model (Total/Unescape.v)
+	unescapeStream(c, do, big)
+
 	// F: the real binary on a sample: exit status and stderr markers
 	if bin := os.Getenv("VERIF_SYSL_BIN"); bin != "" {
 		dir, _ := os.MkdirTemp("", "c01bin")
@@ -797,7 +903,7 @@ Local Open Scope Z_scope.`
 				if st, e := os.Stat(filepath.Join(dir, "out.textpb")); e != nil || st.Size() == 0 {
 					// an empty module encodes to zero bytes: only flag when the parser in-process produced apps
 					var rr rep
-					w.Call(req{map[string]string{"root.sysl": src}, "root.sysl"}, &rr, 20*time.Second)
+					w.Call(req{map[string]string{"root.sysl": src}, "root.sysl", false, false}, &rr, 20*time.Second)
 					if rr.Outcome != "model" {
 						c.Fail("status0-no-model", "sysl pb exits 0 although compilation reports "+rr.Outcome, cs)
 					}
